@@ -548,10 +548,13 @@ func (o *Obligation) Discharged() bool {
 	if o.Cover {
 		// vacuity guard: the path condition must not be provably contradictory
 		// (a solver that was killed or ran out of time says nothing; an SMT-level error in the query does)
-		return o.Res.Status != "unsat" && !(o.Res.Status == "error" && strings.Contains(o.Res.Output, "(error"))
+		return o.Res.Status != "unsat" && !(o.Res.Status == "error" && (strings.Contains(o.Res.Output, "(error \"line") || strings.Contains(o.Res.Output, "Parse Error")))
 	}
 	return o.Res.Status == "unsat"
 }
+
+// expectedProved: obligations proved on the pinned tree (the baseline of the property being checked)
+var expectedProved = map[string]bool{}
 
 func dischargeAll(obls []*Obligation, timeoutS int) {
 	var wg sync.WaitGroup
@@ -594,8 +597,9 @@ func dischargeAll(obls []*Obligation, timeoutS int) {
 					}
 				}
 			}
-			if !o.Cover {
+			if !o.Cover && !expectedProved[o.Name] {
 				// a clause that has already failed on several paths is failed: further instances add nothing
+				// (never for obligations that are proved on the pinned tree: there a failure is more likely a busy machine)
 				tmu.Lock()
 				nf := failedByName[o.Name]
 				tmu.Unlock()
@@ -604,7 +608,7 @@ func dischargeAll(obls []*Obligation, timeoutS int) {
 					return
 				}
 			}
-			if o.Top != "" {
+			if o.Top != "" && !expectedProved[o.Name] {
 				tmu.Lock()
 				n := timeouts[o.Top]
 				tmu.Unlock()
@@ -635,7 +639,27 @@ func dischargeAll(obls []*Obligation, timeoutS int) {
 			again = append(again, o)
 		}
 	}
-	if len(again) > 0 && len(again) <= 40 {
+	nExpected := 0
+	for _, o := range again {
+		if expectedProved[o.Name] {
+			nExpected++
+		}
+	}
+	if nExpected > 0 && len(again) > 40 {
+		// many timeouts, among them obligations that are proved on the pinned tree: the machine is busy. Only
+		// those are asked again.
+		var keep []*Obligation
+		for _, o := range again {
+			if expectedProved[o.Name] {
+				keep = append(keep, o)
+			}
+		}
+		again = keep
+		if len(again) > 400 {
+			again = again[:400]
+		}
+	}
+	if len(again) > 0 && (len(again) <= 40 || nExpected > 0) {
 		sem := make(chan struct{}, 4)
 		for _, o := range again {
 			wg.Add(1)
